@@ -1,7 +1,8 @@
 /-
 C13 — the fail-stop property as a predicate on what can be observed of one run of a tool
 (exit status, terminating signal / sanitizer report / hang, stderr, the output).  This is the oracle the
-correspondence check evaluates on every real run, and the statement the model theorems are about.
+correspondence check evaluates on every real run; `Sqfs.C13.packer_meets_spec` / `reader_meets_spec` prove it of every run
+of the model (with `sameAsFaultFree` read as "same step sequence").
 -/
 namespace Sqfs.FailStop.Spec
 
